@@ -75,3 +75,19 @@ Theorem C04_circuit_mono : forall delays cap ops (e : wenv),
   (forall k, dtab_polfree (delays k)) -> (forall k, wf_wave (e k)) -> (forall k, strictly_increasing (e k)) ->
   forall k, strictly_increasing (wexec delays cap ops e k).
 Proof. exact KV.Proofs.WaveCircuit2.circuit_mono. Qed.
+
+(** SOURCE TIE (see C03_kernel_source_is_model): the merge kernel as translated from the current text of wave_sim._wave_eval
+    (Gen/WaveEvalSrc.v, regenerated on every run) computes the model [wave_eval]; hence every finite time the SOURCE stores is a
+    finite operand time plus one of that operand's four delays. *)
+From KV Require Import Model.WaveSrcPrelude Gen.WaveEvalSrc.
+From KV Require Proofs.WaveEvalSrcProofs Proofs.WaveEvalSrcCorollaries.
+Theorem C04_kernel_source_is_model : forall lut ws ds zreg, 2 <= length zreg ->
+  KV.Proofs.WaveEvalSrcProofs.res_of
+    (WaveEvalSrc.wave_eval_src (KV.Proofs.WaveEvalSrcProofs.model_fuel ws) (Z.of_N lut) ws ds zreg) = wave_eval lut ws ds zreg.
+Proof. exact KV.Proofs.WaveEvalSrcProofs.kernel_source_is_model. Qed.
+
+Theorem C04_source_emit_is_sum : forall lut ws ds zreg s nr nf, wf_args ws ds zreg ->
+  WaveEvalSrc.wave_eval_src (KV.Proofs.WaveEvalSrcProofs.model_fuel ws) (Z.of_N lut) ws ds zreg = Some (s, (nr, nf)) ->
+  forall t, In (Fin t) (body (KV.Proofs.WaveEvalSrcCorollaries.src_z s)) ->
+  exists k u i j, k < 4 /\ In (Fin u) (body (nth k ws [])) /\ t = (u + dget (nth k ds dzero) i j)%Z.
+Proof. exact KV.Proofs.WaveEvalSrcCorollaries.src_emit_is_sum. Qed.
